@@ -43,3 +43,13 @@ Print Assumptions C07_committees_partition.
 Example C07_nonvacuous : (* 10 positions in 3 committees: sizes 3,3,4 *)
   map (fun i => 10 * (i + 1) / 3 - 10 * i / 3) [0; 1; 2] = [3; 3; 4].
 Proof. vm_compute. reflexivity. Qed.
+
+(* The same without hypotheses: the per-index shuffle of the Spec is a permutation of the index range for every hash,
+   seed, round count and size (property C06, transported by Beacon/Proofs/ShuffleBridge.v), so within an epoch the
+   committees hold every active validator exactly once. *)
+From V Require Import Beacon.Proofs.ShuffleBridge.
+Theorem C07_committees_partition_unconditional : forall (E : Env) (idx : list N) (seed : bytes) (count : N), 0 < count ->
+  exists comms, all_some (map (fun k => compute_committee E idx seed k count) (seqN 0 (N.to_nat count))) = Some comms /\
+                Permutation (concat comms) idx.
+Proof. exact committees_partition_unconditional. Qed.
+Print Assumptions C07_committees_partition_unconditional.
